@@ -526,7 +526,12 @@ pub fn run_case(ctx: &Ctx, prof: &Profile, case: u64, verbose: bool) -> CaseOut 
     let seed = ctx.case_seed("kv", case);
     let mut rng = SmallRng::seed_from_u64(seed);
     let limit: u32 = [1024, 4096, 4096, 65536][rng.gen_range(0..4)];
-    let kind = if rng.gen_bool(0.5) { StoreKind::Plain } else { StoreKind::Random(1 << 40) };
+    // (a tenth of the cases on a store built like the server's, with limits around the 32-bit boundary, far out of reach)
+    let kind = match rng.gen_range(0..10) {
+        0 => StoreKind::Built([1u64 << 32, 1 << 33, (1 << 32) + (1 << 20), 3 << 32][rng.gen_range(0..4)]),
+        1..=4 => StoreKind::Random(1 << 40),
+        _ => StoreKind::Plain,
+    };
     let t0: u64 = [0, 1, 7, 1000, 1_000_000][rng.gen_range(0..5)];
     let sweep_mode = [Sweep::Every, Sweep::Every, Sweep::Some, Sweep::Final][rng.gen_range(0..4)];
     let keys = key_pool(&mut rng, prof.nkeys);
@@ -571,6 +576,7 @@ pub fn run_case(ctx: &Ctx, prof: &Profile, case: u64, verbose: bool) -> CaseOut 
     }
     let mut probe_uncollected = false;
     let burst_at = if rng.gen_ratio(1, 20) { rng.gen_range(0..len) } else { usize::MAX };
+    let mut burst_read_pending = false;
     for step in 0..len {
         let mut cmd = gen_cmd(&mut rng, prof, &m, &keys, limit);
         if probe_uncollected {
@@ -602,15 +608,29 @@ pub fn run_case(ctx: &Ctx, prof: &Profile, case: u64, verbose: bool) -> CaseOut 
         if !cfg!(miri) && step == burst_at {
             let mut buf = vec![];
             for i in 0..1200u32 {
-                wire::store(op::SETQ, format!("burst-{}", i % 40).as_bytes(), b"b", 0, if i % 3 == 0 { 1 } else { 0 }, i, 0).encode_into(&mut buf);
+                wire::store(op::SETQ, format!("burst-{}", i % 80).as_bytes(), b"b", 0, if i % 2 == 0 { 1 } else { 0 }, i, 0).encode_into(&mut buf);
             }
             let _ = conn.feed(&buf);
+            burst_read_pending = true;
             *out.counters.entry("cases_with_a_burst_of_1200_unrelated_stores".into()).or_insert(0) += 1;
         }
         if let Cmd::Advance(d) = cmd {
             let t = stack.timer.advance(d);
             m.now = t;
             out.trace.push(format!("advance {} -> t={}", d, t));
+            if burst_read_pending {
+                // the burst's short-lived items have expired: reading forty expired keys (twice) collects them;
+                // collecting them must not touch anything else
+                burst_read_pending = false;
+                let mut buf = vec![];
+                for rep in 0..2u32 {
+                    for i in 0..80u32 {
+                        wire::get(op::GETQ, format!("burst-{}", i).as_bytes(), rep * 100 + i).encode_into(&mut buf);
+                    }
+                }
+                let _ = conn.feed(&buf);
+                out.trace.push("(80 burst keys read, the expired half collected)".into());
+            }
             fp.push(0xfe);
             *out.counters.entry("advance".into()).or_insert(0) += 1;
         } else {
